@@ -343,10 +343,9 @@ def run_job(job, cls, method, n, order, shape, stepmode, prev=None):
 
 
 def _complex_default_first(cfg):
-    # the default first-derivative complex rule: n == 1 and method_order < 4  (x + 1j*h)
-    mods = cm.nd_mods()
-    r = mods['fd'].LogRule(n=1, method='complex', order=cfg['order'] or 2)
-    return r.method_order < 4
+    # the default first-derivative complex rule (x + 1j*h): first derivative with a requested order below 4 -- restated from
+    # the documentation ("n > 1 or order >= 4" selects the high-order complex rules), NOT read off the library's method_order
+    return (cfg['order'] or 2) < 4
 
 
 def _model_for(conds):
